@@ -8,9 +8,7 @@ import "verif/harness/memsim"
 // stackModelCovers reports whether the answer and the backend trace of the operation are
 // compared with the composed model, and the reason when they are not.
 func stackModelCovers(o memsim.Op) (bool, string) {
-	// push_size_mismatch of coq/Model/Transparent.v
-	if o.Kind == "PushBlob" && o.Desc != nil && o.Desc.Size != int64(len(o.Content)) && o.Desc.Size > 0 && len(o.Content) > 0 {
-		return false, "push-size race (net/http notices the wrong body length while sending)"
-	}
+	// every operation is compared (a PushBlob whose size differs from the content length was left
+	// out until ociclient.PushBlob was repaired to hold content of known length to that size itself)
 	return true, ""
 }
